@@ -34,7 +34,8 @@ MANDATORY = ['mixed-timing', 'post-merge', 'no-timing-at-all', 'metadata-without
 
 def check(ro, where='ro', base='roCreate'):
     fails = []
-    root = ro.xml
+    # an independent parse of the serialised document, not the library's own tree
+    root = ET.fromstring(str(ro))
     rc = root.find(base)
     vals = {}
     for name in access.RO_ACCESSORS:
